@@ -718,7 +718,12 @@ fn check_composition(
     token: &LexerToken,
 ) -> Result<(), CompilerError> {
     trace!("Composition check between previous {:?} and current {:?}", previous, current);
-    match (previous, current) {
+    // a right-to-left binary operator (pair) composes like any other binary operator
+    let as_binary = |definition| match definition {
+        SecondaryDefinition::BinaryRightToLeft => SecondaryDefinition::BinaryLeftToRight,
+        other => other,
+    };
+    match (as_binary(previous), as_binary(current)) {
         // pairs that are only valid as neighbouring items of a space separated list
         (SecondaryDefinition::Value, SecondaryDefinition::Value)
         | (SecondaryDefinition::Value, SecondaryDefinition::Identifier)
